@@ -7,7 +7,9 @@ package main
 
 import (
 	"fmt"
+	"math"
 	"sort"
+	"strconv"
 	"strings"
 
 	goat "github.com/philhassey/goatlang"
@@ -289,7 +291,141 @@ func runScriptOpt(src string, opt bool) (out string, err error) {
 	return w.String(), err
 }
 
+// ---------------------------------------------------------------- the bundled fmt / math / strings / strconv subset
+
+func c01LibProgram(r *RNG) (GoProg, map[string]bool) {
+	feat := map[string]bool{}
+	var sb strings.Builder
+	fl := func() string {
+		return Pick(r, []string{"0.0", "1.0", "-1.5", "2.5", "3.75", "100.0", "0.001", "-0.5", "7.0", "1e10", "-2.0", "0.5", "9.99"})
+	}
+	in := func() string { return fmt.Sprint(r.Intn(2000) - 500) }
+	st := func() string {
+		return strconv.Quote(Pick(r, []string{"", "a", "a,b,,c", "  pad  ", "hello world", "héllo", "xx--yy--", "12", "-7", "3.5", "1e3", "0x1f", "abcabc", "\t tab\n"}))
+	}
+	sb.WriteString("func main() {\n")
+	n := 6 + r.Intn(10)
+	for i := 0; i < n; i++ {
+		switch k := r.Intn(30); {
+		case k < 10:
+			// (only the exactly rounded functions here: the toolchain oracle runs with GOARCH=386, whose
+			// transcendental functions may differ from amd64's in the last bit; those are compared natively)
+			f1 := Pick(r, []string{"Abs", "Ceil", "Floor", "Round", "Sqrt"})
+			fmt.Fprintf(&sb, "println(\"math.%s\", math.%s(%s))\n", f1, f1, fl())
+			feat["math."+f1] = true
+		case k < 14:
+			f2 := Pick(r, []string{"Max", "Min", "Mod"})
+			fmt.Fprintf(&sb, "println(\"math.%s\", math.%s(%s, %s))\n", f2, f2, fl(), fl())
+			feat["math."+f2] = true
+		case k == 14:
+			fmt.Fprintf(&sb, "println(\"math.Signbit\", math.Signbit(%s), math.Pi > 3.14)\n", fl())
+			feat["math.Signbit"] = true
+		case k == 15:
+			fmt.Fprintf(&sb, "println(\"split\", len(strings.Split(%s, %s)), strings.Split(%s, \",\"))\n", st(), Pick(r, []string{"\",\"", "\"--\"", "\"\"", "\" \""}), st())
+			feat["strings.Split"] = true
+		case k == 16:
+			fmt.Fprintf(&sb, "println(\"join\", strings.Join([]string{%s, %s, %s}, %s))\n", st(), st(), st(), st())
+			feat["strings.Join"] = true
+		case k == 17:
+			fmt.Fprintf(&sb, "println(\"repl\", strings.ReplaceAll(%s, %s, %s), strings.Replace(%s, \"a\", \"Z\", %d))\n", st(), Pick(r, []string{"\"a\"", "\",\"", "\"--\"", "\"\""}), st(), st(), r.Intn(4)-1)
+			feat["strings.Replace(All)"] = true
+		case k == 18:
+			fmt.Fprintf(&sb, "println(\"trim\", \"[\"+strings.TrimSpace(%s)+\"]\", \"[\"+strings.TrimRight(%s, \" -y\")+\"]\", \"[\"+strings.TrimSuffix(%s, \"--\")+\"]\")\n", st(), st(), st())
+			feat["strings.Trim*"] = true
+		case k == 19:
+			fmt.Fprintf(&sb, "println(\"has\", strings.Contains(%s, %s), strings.Repeat(%s, %d))\n", st(), Pick(r, []string{"\"a\"", "\"\"", "\"lo w\"", "\"--\""}), st(), r.Intn(4))
+			feat["strings.Contains/Repeat"] = true
+		case k == 20:
+			fmt.Fprintf(&sb, "println(\"itoa\", strconv.Itoa(%s), strconv.FormatInt(int64(%s), %d))\n", in(), in(), Pick(r, []int{2, 8, 10, 16, 36}))
+			feat["strconv.Itoa/FormatInt"] = true
+		case k == 21:
+			fmt.Fprintf(&sb, "println(\"ffloat\", strconv.FormatFloat(%s, '%s', %d, 64))\n", fl(), Pick(r, []string{"f", "e", "g"}), r.Intn(6)-1)
+			feat["strconv.FormatFloat"] = true
+		case k == 22:
+			fmt.Fprintf(&sb, "if true {\n\tv, err := strconv.ParseInt(%s, %d, 32)\n\tprintln(\"pint\", v, err == nil)\n}\n", st(), Pick(r, []int{10, 10, 16, 0}))
+			feat["strconv.ParseInt"] = true
+		case k == 23:
+			fmt.Fprintf(&sb, "if true {\n\tv, err := strconv.ParseFloat(%s, 64)\n\tprintln(\"pfloat\", v, err == nil)\n}\n", st())
+			feat["strconv.ParseFloat"] = true
+		case k < 28:
+			verb := Pick(r, []string{"%d", "%5d", "%-5d|", "%05d", "%x", "%X", "%o", "%b", "%c", "%v", "%+d"})
+			fverb := Pick(r, []string{"%f", "%.2f", "%8.3f", "%e", "%g", "%v", "%.0f"})
+			sverb := Pick(r, []string{"%s", "%q", "%10s|", "%-10s|", "%v", "%x"})
+			fmt.Fprintf(&sb, "println(fmt.Sprintf(\"%s %s %s %%t %%%%\", %s, %s, %s, %v))\n", verb, fverb, sverb, fmt.Sprint(r.Intn(300)+33), fl(), st(), r.Bool())
+			feat["fmt.Sprintf"] = true
+		default:
+			fmt.Fprintf(&sb, "println(fmt.Sprint(%s), fmt.Sprint(%s), fmt.Sprint(%s), fmt.Sprintf(\"%%v|%%v\", []int{%s, %s}, %v))\n", in(), fl(), st(), in(), in(), r.Bool())
+			feat["fmt.Sprint"] = true
+		}
+	}
+	sb.WriteString("}\n")
+	var imports []string
+	for _, im := range []string{"fmt", "math", "strings", "strconv"} {
+		if strings.Contains(sb.String(), im+".") {
+			imports = append(imports, im)
+		}
+	}
+	return GoProg{Src: sb.String(), Imports: imports}, feat
+}
+
+// c01MathNative: the transcendental shims against Go's math on this very platform
+func (c *Ctx) c01MathNative(n int) {
+	r := c.RNG
+	one := map[string]func(float64) float64{"Atan": math.Atan, "Cos": math.Cos, "Log": math.Log, "Sin": math.Sin, "Tan": math.Tan, "Sqrt": math.Sqrt}
+	two := map[string]func(float64, float64) float64{"Atan2": math.Atan2, "Hypot": math.Hypot, "Pow": math.Pow, "Mod": math.Mod}
+	for i := 0; i < n; i++ {
+		a := float64(r.Intn(20000)-10000) / Pick(r, []float64{1, 10, 1000})
+		b := float64(r.Intn(2000)-1000) / Pick(r, []float64{1, 10, 100})
+		var src, want string
+		if r.Bool() {
+			f := Pick(r, sortedKeys(one))
+			src = fmt.Sprintf("import \"math\"\nprintln(math.%s(%v))\n", f, lit64(a))
+			want = fmt.Sprint(one[f](a))
+		} else {
+			f := Pick(r, sortedKeys(two))
+			src = fmt.Sprintf("import \"math\"\nprintln(math.%s(%v, %v))\n", f, lit64(a), lit64(b))
+			want = fmt.Sprint(two[f](a, b))
+		}
+		out, err := runScript(src)
+		c.Rep.Oracle["native-math"]++
+		if err != nil || strings.TrimSpace(out) != want {
+			c.Rep.Violate(Violation{Kind: "oracle", Cut: "native-math", Input: src, Impl: fmt.Sprint(strings.TrimSpace(out), " ", err), Oracle: want})
+		}
+	}
+}
+
+func lit64(f float64) string {
+	s := strconv.FormatFloat(f, 'g', -1, 64)
+	if !strings.ContainsAny(s, ".e") {
+		s += ".0"
+	}
+	return "(" + s + ")"
+}
+
 func runC01(c *Ctx) error {
+	if c.Thorough() {
+		c.c01MathNative(20000)
+	} else {
+		c.c01MathNative(500)
+	}
+	nl := 120
+	if c.Thorough() {
+		nl = 3000
+	}
+	for done := 0; done < nl; done += 300 {
+		var progs []GoProg
+		var feats []map[string]bool
+		for i := 0; i < 300 && done+i < nl; i++ {
+			p, f := c01LibProgram(c.RNG)
+			progs, feats = append(progs, p), append(feats, f)
+		}
+		if done == 0 {
+			c.Rep.Sample(map[string]any{"library_program": progs[0].Src})
+		}
+		if err := c.goDiff("go-toolchain-library", progs, feats); err != nil {
+			return err
+		}
+	}
 	nm := 300
 	if c.Thorough() {
 		nm = 20000
